@@ -10,5 +10,5 @@ Definition request_table : list (str * str * str * str * str * bool * list str *
   ((s2l "Server.parse_authz_decision_query"), (s2l "AuthzDecisionQuery"), (s2l "authz_decision_query"), (s2l "authz_service"), (s2l "authz_decision_query"), true, [(s2l "AuthzDecisionQuery")], false, []);
   ((s2l "Server.parse_assertion_id_request"), (s2l "AssertionIDRequest"), (s2l "assertion_id_request"), (s2l "assertion_id_request_service"), (s2l "assertion_id_request"), true, [(s2l "AssertionIDRequest")], true, [(s2l "AssertionIDRequest")]);
   ((s2l "Server.parse_name_id_mapping_request"), (s2l "NameIDMappingRequest"), (s2l "name_id_mapping_request"), (s2l "name_id_mapping_service"), (s2l "name_id_mapping_request"), true, [(s2l "NameIDMappingRequest")], true, [(s2l "NameIDMappingRequest")]);
-  ((s2l "Entity.parse_manage_name_id_request"), (s2l "ManageNameIDRequest"), (s2l "manage_name_id_request"), (s2l "manage_name_id_service"), (s2l "manage_name_id_request"), false, [(s2l "ManageNameIDRequest")], true, [(s2l "ManageNameIDRequest")])
+  ((s2l "Entity.parse_manage_name_id_request"), (s2l "ManageNameIDRequest"), (s2l "manage_name_id_request"), (s2l "manage_name_id_service"), (s2l "manage_name_id_request"), true, [(s2l "ManageNameIDRequest")], true, [(s2l "ManageNameIDRequest")])
 ].
